@@ -759,3 +759,764 @@ Section EmplaceFacts.
       + intros _ z x I. apply in_mm_emplace in I. exact I.
   Qed.
 End EmplaceFacts.
+
+(* ------------------------------------------------------------------------------------ *)
+(* the representation relation through an explicit decomposition  list = used ++ free    *)
+(* ------------------------------------------------------------------------------------ *)
+Section RepFacts.
+  Context {K V : Type} `{EqDec K}.
+  Variable uni : bool.
+  Local Open Scope list_scope.
+  Local Open Scope nat_scope.
+
+  Definition rep2 (l : ttll K V) (s : tl K V) (used free : list nat) : Prop :=
+    tt_list l = used ++ free /\ tt_end l = l_begin free /\
+    tl_uniform s = uni /\ tt_cap l = tl_cap s /\ (uni = true -> tt_ttl l = tl_ttl s) /\
+    tt_used l = List.length used /\
+    core uni (tl_cap s) (tt_elems l) (tt_index l) used free (tt_ord l) (tl_lru s) (tl_ord s).
+
+  Lemma rep2_intro l s used free : rep2 l s used free -> tt_rep uni l s.
+  Proof.
+    intros (Hl & He & Hu & Hc & Ht & Hus & C).
+    pose proof C as (Hle & Hnd & Hlen & Hb & Hix & Hnk & Hmap & Hord & Hndo & Huo & Hz & HA & HB).
+    exists used, free.
+    split; [exact Hl|]. split; [exact He|]. split; [exact Hu|]. split; [exact Hc|]. split; [exact Ht|].
+    split; [exact Hle|]. split; [rewrite Hl; exact Hnd|]. split; [rewrite Hl; exact Hlen|].
+    split; [rewrite Hl; exact Hb|]. split; [exact Hus|]. split; [exact Hix|]. split; [exact Hnk|].
+    split; [exact Hmap|]. split; [exact Hord|]. split; [exact Hndo|]. split; [exact Huo|].
+    split; [exact Hz|]. split.
+    - intros n I. destruct (HA n I) as (k & v & e & c & Hc1 & Hk1 & Hv1 & He1 & Hl1 & Ht1 & Ha1).
+      exists k, v, e. split; [eapply (entry_at_cell (tt_elems l)); eauto|]. split; [exact Ha1|].
+      exists c. auto.
+    - intros k n E. destruct (HB k n E) as (I & c & Hc1 & Hk1). split; [exact I|].
+      destruct (HA n I) as (k0 & v & e & c0 & Hc0 & Hk0 & Hv0 & He0 & _).
+      rewrite Hc1 in Hc0. inversion Hc0; subst c0.
+      exists v, e. eapply (entry_at_cell (tt_elems l)); eauto.
+  Qed.
+
+  Lemma rep2_elim l s : tt_rep uni l s -> exists used free, rep2 l s used free.
+  Proof.
+    intros (used & free & Hl & He & Hu & Hc & Ht & Hle & Hnd & Hlen & Hb & Hus & Hix & Hnk & Hmap & Hord &
+            Hndo & Huo & Hz & HA & HB).
+    exists used, free. unfold rep2, core. rewrite Hl in Hnd, Hlen, Hb.
+    split; [exact Hl|]. split; [exact He|]. split; [exact Hu|]. split; [exact Hc|]. split; [exact Ht|].
+    split; [exact Hus|]. split; [exact Hle|]. split; [exact Hnd|]. split; [exact Hlen|]. split; [exact Hb|].
+    split; [exact Hix|]. split; [exact Hnk|]. split; [exact Hmap|]. split; [exact Hord|].
+    split; [exact Hndo|]. split; [exact Huo|]. split; [exact Hz|]. split.
+    - intros n I. destruct (HA n I) as (k & v & e & He1 & Ha1 & c & Hc1 & Hl1 & Ht1).
+      destruct (entry_at_inv (tt_elems l) _ _ _ _ He1) as (c0 & Hc0 & Hk0 & Hv0 & He0).
+      rewrite Hc1 in Hc0. inversion Hc0; subst c0.
+      exists k, v, e, c. repeat split; auto.
+    - intros k n E. destruct (HB k n E) as (I & v & e & He1). split; [exact I|].
+      destruct (entry_at_inv (tt_elems l) _ _ _ _ He1) as (c0 & Hc0 & Hk0 & _). eauto.
+  Qed.
+
+  Lemma tl_with_id (s : tl K V) : tl_with s (tl_lru s) (tl_ord s) = s.
+  Proof. destruct s; reflexivity. Qed.
+
+  (* do_access on a used node *)
+  Lemma tt_access_shape (l : ttll K V) c used free n :
+    tt_list l = used ++ free -> In n used -> te_lru c = Some (It n) ->
+    tt_access l c = Ok (with_list l ((n :: remove_nat n used) ++ free)).
+  Proof.
+    intros Hl I Hp. unfold tt_access, get_lru. rewrite Hp. cbn [bind]. rewrite Hl.
+    rewrite l_splice_begin by (apply in_or_app; auto). cbn [bind].
+    rewrite remove_nat_app_in by auto. reflexivity.
+  Qed.
+
+  (* do_erase(n) for the node n the index gives for key k: n becomes the first free node *)
+  Lemma tt_do_erase_rep2 t (l : ttll K V) (s : tl K V) used free k n :
+    rep2 l s used free -> tl_inv uni t s -> assoc k (tt_index l) = Some n ->
+    exists l', tt_do_erase l n = Ok l' /\ rep2 l' (tl_erase_key s k) (remove_nat n used) (n :: free).
+  Proof.
+    intros (Hl & He & Hu & Hc & Ht & Hus & C) I E.
+    pose proof (tl_inv_core _ _ _ I) as TC. pose proof TC as (Nk & _).
+    pose proof (core_nodup_used _ _ _ _ _ _ _ _ _ C) as Nu.
+    destruct (core_lookup _ _ _ _ _ _ _ _ _ _ _ C Nk E) as (In & Hn & v0 & e0 & CK & Ea).
+    pose proof (core_erase _ _ _ _ _ _ _ _ _ _ _ C TC E) as C'.
+    destruct CK as (c & Hc1 & Hck & Hcv & Hce & Hcl & Hct & _).
+    pose proof C as (Hle & Hnd & Hlen & Hb & Hix & Hnk & Hmap & Hord & Hndo & Huo & Hz & HA & HB).
+    pose proof C' as (_ & Nd' & _).
+    destruct (@exists_last _ used) as (u & b & Eu). { intros E0; rewrite E0 in In; destruct In. }
+    assert (Hp : l_prev (used ++ free) (l_begin free) = Ok (It b)).
+    { rewrite Eu. rewrite <- app_assoc. simpl. apply l_prev_app.
+      rewrite Eu in Hnd. rewrite <- app_assoc in Hnd. exact Hnd. }
+    assert (Hs : (if iter_eqb (It n) (It b) then Ok (used ++ free)
+                  else l_splice (used ++ free) (l_begin free) (It n))
+                 = Ok (remove_nat n used ++ n :: free)).
+    { simpl iter_eqb. destruct (Nat.eqb_spec n b) as [Enb|Nnb].
+      - subst b. rewrite Eu. rewrite remove_nat_last.
+        + rewrite <- app_assoc. reflexivity.
+        + rewrite Eu in Nu. apply NoDup_remove_2 in Nu. rewrite app_nil_r in Nu. exact Nu.
+      - apply l_splice_end; auto. }
+    unfold tt_do_erase. rewrite (vget_ok _ _ _ _ _ Hc1). cbn [bind]. unfold get_lru.
+    rewrite Hcl. cbn [bind]. rewrite Hl, He. rewrite Hp. cbn [bind]. rewrite Hs. cbn [bind].
+    rewrite l_prev_app by exact Nd'. cbn [bind].
+    rewrite Hct. rewrite ord_erase_ok by (apply Huo; exact In). cbn [bind].
+    unfold index_erase. rewrite Hck, E. cbn [bind].
+    destruct (Nat.eqb_spec (tt_used l) 0) as [Ez|Nz].
+    { exfalso. rewrite Hus, Eu, app_length in Ez. simpl in Ez. lia. }
+    eexists. split; [reflexivity|].
+    unfold rep2, tl_erase_key, tl_with.
+    cbn [tt_cap tt_ttl tt_elems tt_index tt_list tt_end tt_ord tt_used tl_uniform tl_cap tl_ttl tl_lru tl_ord].
+    split; [reflexivity|]. split; [reflexivity|]. split; [exact Hu|]. split; [exact Hc|]. split; [exact Ht|].
+    split; [|exact C'].
+    pose proof (perm_remove_nat n used In) as P1. apply Permutation_length in P1. simpl in P1. lia.
+  Qed.
+
+  (* the head of the deadline structure *)
+  Lemma ord_head (l : ttll K V) (s : tl K V) used free z idx o' now :
+    rep2 l s used free -> tt_ord l = (z, idx) :: o' ->
+    exists e kh ord', tl_ord s = (e, kh) :: ord' /\ assoc kh (tt_index l) = Some idx /\
+      (if uni then (do c <- vget "m_elements[ttl_idx]" (tt_elems l) idx; Ok (te_expire c <=? now)%Z)
+       else Ok (z <=? now)%Z) = Ok (e <=? now)%Z.
+  Proof.
+    intros (Hl & He & Hu & Hc & Ht & Hus & C) Eo.
+    destruct C as (Hle & Hnd & Hlen & Hb & Hix & Hnk & Hmap & Hord & Hndo & Huo & Hz & HA & HB).
+    rewrite Eo in Hord. destruct (tl_ord s) as [|[e kh] ord']; simpl in Hord; [discriminate|].
+    injection Hord as E1 E2. unfold rd in E1. simpl in E1.
+    assert (Iu : In idx used). { apply Huo. rewrite Eo. simpl. auto. }
+    destruct (HA idx Iu) as (k & v & e1 & c & Hc1 & Hk1 & Hv1 & He1 & Hl1 & Ht1 & Ha1).
+    destruct (ordent_at_inv _ _ _ _ E1) as (c0 & Hc0 & Hk0 & He0).
+    rewrite Hc1 in Hc0. inversion Hc0; subst c0. rewrite Hk1 in Hk0. inversion Hk0; subst kh.
+    exists e, k, ord'. split; [reflexivity|]. split; [exact Ha1|].
+    destruct uni eqn:Eu.
+    - rewrite (vget_ok _ _ _ _ _ Hc1). cbn [bind]. rewrite He0. reflexivity.
+    - destruct (Hz eq_refl z idx) as (c2 & Hc2 & He2). { rewrite Eo. left; auto. }
+      rewrite Hc1 in Hc2. inversion Hc2; subst c2. congruence.
+  Qed.
+End RepFacts.
+
+(* ------------------------------------------------------------------------------------ *)
+(* the do_* helpers                                                                      *)
+(* ------------------------------------------------------------------------------------ *)
+Section OpFacts.
+  Context {K V : Type} `{EqDec K}.
+  Variable uni : bool.
+  Local Open Scope list_scope.
+  Local Open Scope nat_scope.
+
+  (* do_update(keyed_position, value, expire_time) *)
+  Lemma tt_do_update_rep2 t (l : ttll K V) (s : tl K V) used free k n v ex :
+    rep2 uni l s used free -> tl_inv uni t s -> assoc k (tt_index l) = Some n ->
+    exists l', tt_do_update uni l n v ex = Ok l' /\
+               rep2 uni l' (tl_update s k v ex) (n :: remove_nat n used) free.
+  Proof.
+    intros (Hl & He & Hu & Hc & Ht & Hus & C) I E.
+    pose proof (tl_inv_core _ _ _ I) as TC. pose proof TC as (Nk & Nko & _ & _).
+    pose proof (core_nodup_used _ _ _ _ _ _ _ _ _ C) as Nu.
+    destruct (core_lookup _ _ _ _ _ _ _ _ _ _ _ C Nk E) as (Iu & Hn & v0 & e0 & CK & Ea).
+    destruct CK as (c & Hc1 & Hck & Hcv & Hce & Hcl & Hct & _).
+    pose proof C as (Hle & Hnd & Hlen & Hb & Hix & Hnk & Hmap & Hord & Hndo & Huo & Hz & HA & HB).
+    assert (Ino : In n (map snd (tt_ord l))) by (apply Huo; exact Iu).
+    pose proof (tl_core_erase _ _ k TC) as (_ & _ & _ & Srt).
+    unfold tt_do_update. rewrite (vget_ok _ _ _ _ _ Hc1). cbn [bind te_ttl te_keyed te_lru].
+    rewrite Hck, Hcl, Hct.
+    set (c' := {| te_expire := ex; te_keyed := Some k; te_lru := Some (It n); te_ttl := Some n;
+                  te_val := Some v |}).
+    rewrite vset_ok by lia. cbn [bind]. rewrite ord_erase_ok by exact Ino. cbn [bind].
+    set (es1 := upd_nth n c' (tt_elems l)). set (es2 := upd_nth n c' es1).
+    assert (L1 : List.length es1 = tl_cap s) by (unfold es1; rewrite upd_nth_len; exact Hle).
+    assert (L2 : List.length es2 = tl_cap s) by (unfold es2; rewrite upd_nth_len; exact L1).
+    assert (Hes2n : nth_error es2 n = Some c') by (unfold es2; apply nth_error_upd_eq; lia).
+    assert (Hes1m : forall m, m <> n -> nth_error es1 m = nth_error (tt_elems l) m).
+    { intros m Nm. unfold es1. apply nth_error_upd_neq. exact Nm. }
+    assert (Hes2m : forall m, m <> n -> nth_error es2 m = nth_error (tt_elems l) m).
+    { intros m Nm. unfold es2. rewrite nth_error_upd_neq by exact Nm. apply Hes1m. exact Nm. }
+    assert (R1 : map (rd (ordent_at (tt_elems l))) (ord_remove n (tt_ord l)) =
+                 map (@Some (Z * K)) (rem2 k (tl_ord s))).
+    { eapply rd_remove; [exact Hord|exact Nko|exact Ino|eapply ordent_at_cell; eauto]. }
+    assert (Hnot : forall x, In x (map snd (ord_remove n (tt_ord l))) -> x <> n /\ In x (map snd (tt_ord l))).
+    { intros x Ix. rewrite map_snd_ord_remove in Ix. apply in_remove_nat in Ix; auto. tauto. }
+    destruct (ord_emplace_reads uni l es1 (ordent_at (tt_elems l)) (ordent_at es2)
+                (ord_remove n (tt_ord l)) (rem2 k (tl_ord s)) ex k n R1 Srt) as (o2 & Eo2 & R2 & P2 & Z2).
+    - intros Hu0 z x Ix. apply in_ord_remove_weak in Ix. destruct (Hz Hu0 z x Ix) as (cx & Hcx & Hex).
+      assert (Iux : In x used). { apply Huo. apply in_map_iff. exists (z, x). auto. }
+      destruct (HA x Iux) as (kx & vx & ex' & cx' & Hcx' & Hkx & _).
+      rewrite Hcx in Hcx'. inversion Hcx'; subst cx'. exists kx. eapply ordent_at_cell; eauto.
+    - intros x e' k' Ix Hx. destruct (Hnot x Ix) as [Nx _].
+      destruct (ordent_at_inv _ _ _ _ Hx) as (cx & Hcx & _ & Hex). exists cx. split; auto.
+      rewrite Hes1m by exact Nx. exact Hcx.
+    - intros x Ix. destruct (Hnot x Ix) as [Nx _]. apply ordent_at_ext. apply Hes2m. exact Nx.
+    - eapply ordent_at_cell; [exact Hes2n|reflexivity|reflexivity].
+    - rewrite Eo2. cbn [bind]. rewrite vset_ok by lia. cbn [bind]. fold es2.
+      erewrite tt_access_shape; [|cbn [tt_list]; exact Hl|exact Iu|reflexivity].
+      eexists. split; [reflexivity|].
+      unfold with_list, rep2, tl_update, tl_with.
+      cbn [tt_cap tt_ttl tt_elems tt_index tt_list tt_end tt_ord tt_used tl_uniform tl_cap tl_ttl tl_lru tl_ord].
+      split; [reflexivity|]. split; [exact He|]. split; [exact Hu|]. split; [exact Hc|]. split; [exact Ht|].
+      split. { pose proof (perm_remove_nat n used Iu) as P1. apply Permutation_length in P1. simpl in *. lia. }
+      eapply (core_touch uni _ (tt_elems l) (tt_index l) used free (tt_ord l) (tl_lru s) (tl_ord s) k n es2 c');
+        try reflexivity; eauto.
+      + rewrite map_snd_ord_remove in P2. eapply perm_trans; [exact P2|]. apply perm_remove_nat. exact Ino.
+      + intros Hu0 z m Im. destruct (Z2 Hu0 z m Im) as [Eq|Io].
+        * inversion Eq; subst. exists c'. split; [exact Hes2n|reflexivity].
+        * assert (Nm : m <> n). { apply Hnot. apply in_map_iff. exists (z, m). auto. }
+          apply in_ord_remove_weak in Io. destruct (Hz Hu0 z m Io) as (cm & Hcm & Hem).
+          exists cm. rewrite Hes2m by exact Nm. auto.
+  Qed.
+
+  (* do_prune(now) on a full cache is do_erase of the node the mid-level model picks *)
+  Lemma tt_do_prune_full t (l : ttll K V) (s : tl K V) used free now :
+    rep2 uni l s used free -> tl_inv uni t s -> tl_cap s <= List.length (tl_lru s) ->
+    exists kx nx, assoc kx (tt_index l) = Some nx /\ tl_prune s now = tl_erase_key s kx /\
+                  tt_do_prune uni l now = tt_do_erase l nx.
+  Proof.
+    intros R I Hfull. pose proof R as (Hl & He & Hu & Hc & Ht & Hus & C).
+    pose proof I as (_ & Hcap1 & _).
+    pose proof (core_len _ _ _ _ _ _ _ _ _ C) as Ln.
+    pose proof C as (Hle & Hnd & Hlen & Hb & Hix & Hnk & Hmap & Hord & Hndo & Huo & Hz & HA & HB).
+    assert (Hfree : free = []).
+    { rewrite app_length in Hlen. destruct free; auto. simpl in Hlen. lia. }
+    subst free.
+    destruct (@exists_last _ used) as (u & b & Eu).
+    { intros E0. rewrite E0 in Ln. simpl in Ln. lia. }
+    assert (Ib : In b used). { rewrite Eu. apply in_or_app; right; simpl; auto. }
+    destruct (HA b Ib) as (kb & vb & eb & cb & Hcb & Hkb & Hvb & Heb & Hlb & Htb & Hab).
+    destruct (tl_lru s) as [|[kl [vl el]] rest] eqn:Elru.
+    { simpl in Ln. rewrite Eu, app_length in Ln. simpl in Ln. lia. }
+    assert (Ekl : kl = kb).
+    { rewrite Eu, rev_unit in Hmap. simpl in Hmap. injection Hmap as Hh _.
+      rewrite (entry_at_cell _ _ _ _ _ _ Hcb Hkb Hvb Heb) in Hh. inversion Hh; auto. }
+    subst kl.
+    destruct (tt_ord l) as [|[z idx] o'] eqn:Eo.
+    { exfalso. apply Huo in Ib. simpl in Ib. exact Ib. }
+    destruct (ord_head uni l s used [] z idx o' now R Eo) as (e & kh & ord' & Eord & Akh & Hdead).
+    unfold tt_do_prune, tl_prune. rewrite Elru, Eord, Eo.
+    assert (C0 : (0 <? tt_used l) = true).
+    { apply Nat.ltb_lt. rewrite Hus, Eu, app_length. simpl. lia. }
+    rewrite C0, Hdead. cbn [bind].
+    destruct (e <=? now)%Z.
+    - exists kh, idx. auto.
+    - exists kb, b. split; [exact Hab|]. split; [reflexivity|].
+      rewrite Hl, Eu, app_nil_r, l_back_app. reflexivity.
+  Qed.
+
+  (* do_insert when there is a free node *)
+  Lemma tt_do_insert_nonfull t (l : ttll K V) (s : tl K V) used free k v now ex :
+    rep2 uni l s used free -> tl_inv uni t s -> List.length (tl_lru s) < tl_cap s ->
+    assoc k (tt_index l) = None ->
+    exists l' used' free', tt_do_insert uni l k v now ex = Ok l' /\
+      rep2 uni l' (tl_with s (tl_lru s ++ [(k, (v, ex))]) (dl_insert ex k (tl_ord s))) used' free'.
+  Proof.
+    intros (Hl & He & Hu & Hc & Ht & Hus & C) I Hlt E.
+    pose proof (tl_inv_core _ _ _ I) as TC. pose proof TC as (Nk & Nko & _ & Srt).
+    pose proof (core_len _ _ _ _ _ _ _ _ _ C) as Ln.
+    pose proof C as (Hle & Hnd & Hlen & Hb & Hix & Hnk & Hmap & Hord & Hndo & Huo & Hz & HA & HB).
+    destruct free as [|n free']. { rewrite app_nil_r in Hlen. lia. }
+    assert (Nn : ~ In n used).
+    { apply NoDup_remove_2 in Hnd. intros J. apply Hnd. apply in_or_app; auto. }
+    assert (Hn : n < tl_cap s). { apply Hb. apply in_or_app. right; left; auto. }
+    set (c' := {| te_expire := ex; te_keyed := Some k; te_lru := Some (It n); te_ttl := Some n;
+                  te_val := Some v |}).
+    set (es' := upd_nth n c' (tt_elems l)).
+    assert (L1 : List.length es' = tl_cap s) by (unfold es'; rewrite upd_nth_len; exact Hle).
+    assert (Hesn : nth_error es' n = Some c') by (unfold es'; apply nth_error_upd_eq; lia).
+    assert (Hesm : forall m, m <> n -> nth_error es' m = nth_error (tt_elems l) m).
+    { intros m Nm. unfold es'. apply nth_error_upd_neq. exact Nm. }
+    assert (Hnot : forall x, In x (map snd (tt_ord l)) -> x <> n).
+    { intros x Ix Ex. subst x. apply Nn. apply Huo. exact Ix. }
+    destruct (ord_emplace_reads uni l (tt_elems l) (ordent_at (tt_elems l)) (ordent_at es')
+                (tt_ord l) (tl_ord s) ex k n Hord Srt) as (o2 & Eo2 & R2 & P2 & Z2).
+    - intros Hu0 z x Ix. destruct (Hz Hu0 z x Ix) as (cx & Hcx & Hex).
+      assert (Iux : In x used). { apply Huo. apply in_map_iff. exists (z, x). auto. }
+      destruct (HA x Iux) as (kx & vx & ex' & cx' & Hcx' & Hkx & _).
+      rewrite Hcx in Hcx'. inversion Hcx'; subst cx'. exists kx. eapply ordent_at_cell; eauto.
+    - intros x e' k' Ix Hx.
+      destruct (ordent_at_inv _ _ _ _ Hx) as (cx & Hcx & _ & Hex). exists cx. auto.
+    - intros x Ix. apply ordent_at_ext. apply Hesm. apply Hnot. exact Ix.
+    - eapply ordent_at_cell; [exact Hesn|reflexivity|reflexivity].
+    - unfold tt_do_insert.
+      assert (C1 : (List.length (tt_elems l) <=? tt_used l) = false) by (apply Nat.leb_gt; lia).
+      rewrite C1. cbn [bind]. rewrite Hl, He. cbn [l_begin]. unfold l_deref.
+      rewrite mem_nat_in by (apply in_or_app; right; left; auto). cbn [bind].
+      unfold index_emplace.
+      assert (C2 : (List.length (tt_index l) <? tt_cap l) = true) by (apply Nat.ltb_lt; lia).
+      rewrite C2. cbn [bind]. rewrite Eo2. cbn [bind]. fold c'. rewrite vset_ok by lia. cbn [bind]. fold es'.
+      unfold l_next. rewrite mem_nat_in by (apply in_or_app; right; left; auto). cbn [bind].
+      rewrite after_app by exact Nn.
+      erewrite (tt_access_shape _ c' (used ++ [n]) free' n);
+        [|cbn [tt_list]; rewrite <- app_assoc; reflexivity|apply in_or_app; right; left; auto|reflexivity].
+      rewrite remove_nat_last by exact Nn.
+      eexists. exists (n :: used), free'. split; [reflexivity|].
+      unfold with_list, rep2, tl_with.
+      cbn [tt_cap tt_ttl tt_elems tt_index tt_list tt_end tt_ord tt_used tl_uniform tl_cap tl_ttl tl_lru tl_ord].
+      split; [reflexivity|]. split; [reflexivity|]. split; [exact Hu|]. split; [exact Hc|]. split; [exact Ht|].
+      split; [simpl; lia|].
+      eapply (core_claim uni _ (tt_elems l) (tt_index l) used free' (tt_ord l) (tl_lru s) (tl_ord s) k n es' c');
+        try reflexivity; eauto.
+      intros Hu0 z m Im. destruct (Z2 Hu0 z m Im) as [Eq|Io].
+      + inversion Eq; subst. exists c'. split; [exact Hesn|reflexivity].
+      + assert (Nm : m <> n). { apply Hnot. apply in_map_iff. exists (z, m). auto. }
+        destruct (Hz Hu0 z m Io) as (cm & Hcm & Hem). exists cm. rewrite Hesm by exact Nm. auto.
+  Qed.
+
+  (* do_insert *)
+  Lemma tt_do_insert_rep2 t (l : ttll K V) (s : tl K V) used free k v now ex :
+    rep2 uni l s used free -> tl_inv uni t s -> assoc k (tt_index l) = None ->
+    let s1 := if tl_cap s <=? List.length (tl_lru s) then tl_prune s now else s in
+    let s2 := tl_with s1 (tl_lru s1 ++ [(k, (v, ex))]) (dl_insert ex k (tl_ord s1)) in
+    exists l' used' free', tt_do_insert uni l k v now ex = Ok l' /\ rep2 uni l' s2 used' free' /\
+                           tl_inv uni t s2 /\ tl_cap s2 = tl_cap s.
+  Proof.
+    intros R I E. cbv zeta.
+    pose proof (core_lookup_none _ _ _ _ _ _ _ _ _ _ (proj2 (proj2 (proj2 (proj2 (proj2 (proj2 R)))))) E) as N0.
+    destruct (Nat.leb_spec (tl_cap s) (List.length (tl_lru s))) as [Hfull|Hnf].
+    - destruct (tt_do_prune_full t l s used free now R I Hfull) as (kx & nx & Akx & Ep & Dp).
+      destruct (tt_do_erase_rep2 uni t l s used free kx nx R I Akx) as (l1 & D1 & R1).
+      rewrite Ep. set (s1 := tl_erase_key s kx) in *.
+      assert (I1 : tl_inv uni t s1) by (apply tl_inv_erase_key with t; exact I).
+      assert (N1 : assoc k (tl_lru s1) = None).
+      { unfold s1, tl_erase_key. cbn [tl_with tl_lru]. rewrite tl_assoc_remk, N0. destruct (Base.eqb kx k); auto. }
+      assert (L1 : List.length (tl_lru s1) < tl_cap s1).
+      { pose proof I as (_ & _ & Nk & Hlen & _).
+        pose proof R as (_ & _ & _ & _ & _ & _ & C).
+        destruct (core_lookup _ _ _ _ _ _ _ _ _ _ _ C Nk Akx) as (_ & _ & vx & e0 & _ & Eax).
+        unfold s1, tl_erase_key. cbn [tl_with tl_lru tl_cap].
+        pose proof (tl_length_remk kx _ _ Nk Eax). lia. }
+      assert (A1 : assoc k (tt_index l1) = None).
+      { destruct (assoc k (tt_index l1)) as [m|] eqn:A; auto. exfalso.
+        pose proof I1 as (_ & _ & Nk1 & _). pose proof R1 as (_ & _ & _ & _ & _ & _ & C1).
+        destruct (core_lookup _ _ _ _ _ _ _ _ _ _ _ C1 Nk1 A) as (_ & _ & v1 & e1 & _ & E2). congruence. }
+      destruct (tt_do_insert_nonfull t l1 s1 _ _ k v now ex R1 I1 L1 A1) as (l' & u' & f' & D2 & R2).
+      assert (DI : tt_do_insert uni l k v now ex = tt_do_insert uni l1 k v now ex).
+      { pose proof R as (_ & _ & _ & _ & _ & Hus & C). pose proof (core_len _ _ _ _ _ _ _ _ _ C) as La.
+        pose proof R1 as (_ & _ & _ & _ & _ & Hus1 & C1). pose proof (core_len _ _ _ _ _ _ _ _ _ C1) as Lb.
+        destruct C as (Hle & _). destruct C1 as (Hle1 & _).
+        unfold tt_do_insert.
+        assert (Ca : (List.length (tt_elems l) <=? tt_used l) = true) by (apply Nat.leb_le; lia).
+        assert (Cb : (List.length (tt_elems l1) <=? tt_used l1) = false).
+        { apply Nat.leb_gt. rewrite Hle1, Hus1, <- Lb. exact L1. }
+        rewrite Ca, Cb, Dp, D1. reflexivity. }
+      rewrite DI. exists l', u', f'. split; [exact D2|]. split; [exact R2|]. split; [|reflexivity].
+      eapply tl_inv_with; [exact I1| |].
+      + apply tl_core_add; [eapply tl_inv_core; exact I1|exact N1].
+      + rewrite app_length. cbn [List.length]. lia.
+    - destruct (tt_do_insert_nonfull t l s used free k v now ex R I Hnf E) as (l' & u' & f' & D2 & R2).
+      exists l', u', f'. split; [exact D2|]. split; [exact R2|]. split; [|reflexivity].
+      eapply tl_inv_with; [exact I| |].
+      + apply tl_core_add; [eapply tl_inv_core; exact I|exact N0].
+      + rewrite app_length. simpl. lia.
+  Qed.
+End OpFacts.
+
+(* ------------------------------------------------------------------------------------ *)
+(* the public single-key calls                                                           *)
+(* ------------------------------------------------------------------------------------ *)
+Section CallFacts.
+  Context {K V : Type} `{EqDec K}.
+  Variable uni : bool.
+  Local Open Scope list_scope.
+  Local Open Scope nat_scope.
+
+  (* do_insert_update *)
+  Lemma tt_ins_refines t (l : ttll K V) (s : tl K V) k v a now ex :
+    tl_inv uni t s -> tt_rep uni l s ->
+    exists l', tt_ins uni l k v a now ex = Ok (l', snd (tl_ins s k v a now ex)) /\
+               tt_rep uni l' (fst (tl_ins s k v a now ex)) /\ tl_inv uni t (fst (tl_ins s k v a now ex)) /\
+               tl_cap (fst (tl_ins s k v a now ex)) = tl_cap s.
+  Proof.
+    intros I R. destruct (rep2_elim _ _ _ R) as (used & free & R2).
+    pose proof I as (_ & _ & Nk & _). pose proof R2 as (_ & _ & _ & _ & _ & _ & C).
+    unfold tt_ins, tl_ins.
+    destruct (assoc k (tt_index l)) as [n|] eqn:A.
+    - destruct (core_lookup _ _ _ _ _ _ _ _ _ _ _ C Nk A) as (Iu & Hn & v0 & e0 & CK & Ea).
+      destruct CK as (c & Hc1 & Hck & Hcv & Hce & Hcl & Hct & _). rewrite Ea.
+      destruct (tt_do_update_rep2 uni t l s used free k n v ex R2 I A) as (l' & D & R').
+      assert (I' : tl_inv uni t (tl_update s k v ex)) by (eapply tl_inv_update; eauto).
+      destruct (a_upd a).
+      + rewrite D. cbn [bind fst snd]. exists l'. split; [reflexivity|].
+        split; [eapply rep2_intro; eauto|]. split; [exact I'|reflexivity].
+      + destruct (a_ins a).
+        * rewrite (vget_ok _ _ _ _ _ Hc1). cbn [bind]. rewrite Hce.
+          destruct (e0 <=? now)%Z.
+          -- rewrite D. cbn [bind fst snd]. exists l'. split; [reflexivity|].
+             split; [eapply rep2_intro; eauto|]. split; [exact I'|reflexivity].
+          -- exists l. cbn [fst snd]. auto.
+        * exists l. cbn [fst snd]. auto.
+    - rewrite (core_lookup_none _ _ _ _ _ _ _ _ _ _ C A).
+      destruct (a_ins a).
+      + destruct (tt_do_insert_rep2 uni t l s used free k v now ex R2 I A) as (l' & u' & f' & D & R' & I' & C').
+        cbv zeta in R', I', C' |- *. rewrite D. cbn [bind fst snd]. exists l'. split; [reflexivity|].
+        split; [eapply rep2_intro; eauto|]. split; [exact I'|exact C'].
+      + exists l. cbn [fst snd]. auto.
+  Qed.
+
+  (* erase(key) *)
+  Lemma tt_erase_refines t (l : ttll K V) (s : tl K V) k :
+    tl_inv uni t s -> tt_rep uni l s ->
+    exists l', tt_erase l k = Ok (l', snd (tl_erase s k)) /\
+               tt_rep uni l' (fst (tl_erase s k)) /\ tl_inv uni t (fst (tl_erase s k)) /\
+               tl_cap (fst (tl_erase s k)) = tl_cap s.
+  Proof.
+    intros I R. destruct (rep2_elim _ _ _ R) as (used & free & R2).
+    pose proof I as (_ & _ & Nk & _). pose proof R2 as (_ & _ & _ & _ & _ & _ & C).
+    unfold tt_erase, tl_erase.
+    destruct (assoc k (tt_index l)) as [n|] eqn:A.
+    - destruct (core_lookup _ _ _ _ _ _ _ _ _ _ _ C Nk A) as (Iu & Hn & v0 & e0 & CK & Ea). rewrite Ea.
+      destruct (tt_do_erase_rep2 uni t l s used free k n R2 I A) as (l' & D & R').
+      rewrite D. cbn [bind fst snd]. exists l'. split; [reflexivity|].
+      split; [eapply rep2_intro; eauto|]. split; [apply tl_inv_erase_key with t; exact I|reflexivity].
+    - rewrite (core_lookup_none _ _ _ _ _ _ _ _ _ _ C A). exists l. cbn [fst snd]. auto.
+  Qed.
+
+  (* do_find *)
+  Lemma tt_find_refines t (l : ttll K V) (s : tl K V) k pk now :
+    tl_inv uni t s -> tt_rep uni l s ->
+    exists l', tt_find l k pk now = Ok (l', snd (tl_find s k pk now)) /\
+               tt_rep uni l' (fst (tl_find s k pk now)) /\ tl_inv uni t (fst (tl_find s k pk now)) /\
+               tl_cap (fst (tl_find s k pk now)) = tl_cap s.
+  Proof.
+    intros I R. destruct (rep2_elim _ _ _ R) as (used & free & R2).
+    pose proof I as (_ & _ & Nk & _). pose proof R2 as (Hl & He & Hu & Hc & Ht & Hus & C).
+    unfold tt_find, tl_find.
+    destruct (assoc k (tt_index l)) as [n|] eqn:A.
+    - destruct (core_lookup _ _ _ _ _ _ _ _ _ _ _ C Nk A) as (Iu & Hn & v0 & e0 & CK & Ea).
+      destruct CK as (c & Hc1 & Hck & Hcv & Hce & Hcl & Hct & _). rewrite Ea.
+      rewrite (vget_ok _ _ _ _ _ Hc1). cbn [bind]. rewrite Hce.
+      destruct (now <? e0)%Z.
+      + destruct pk.
+        * cbn [bind fst snd]. rewrite Hcv. exists l. auto.
+        * erewrite tt_access_shape; [|exact Hl|exact Iu|exact Hcl].
+          cbn [bind fst snd]. rewrite Hcv. eexists. split; [reflexivity|]. split.
+          -- eapply rep2_intro with (used := n :: remove_nat n used) (free := free).
+             unfold with_list, rep2, tl_with.
+             cbn [tt_cap tt_ttl tt_elems tt_index tt_list tt_end tt_ord tt_used tl_uniform tl_cap tl_ttl tl_lru tl_ord].
+             split; [reflexivity|]. split; [exact He|]. split; [exact Hu|]. split; [exact Hc|].
+             split; [exact Ht|].
+             split. { pose proof (perm_remove_nat n used Iu) as P1. apply Permutation_length in P1.
+                      simpl in *. lia. }
+             pose proof C as (Hle & Hnd & Hlen & Hb & Hix & Hnk & Hmap & Hord & Hndo & Huo & Hz & HA & HB).
+             eapply (core_touch uni _ (tt_elems l) (tt_index l) used free (tt_ord l) (tl_lru s) (tl_ord s) k n
+                       (tt_elems l) c); eauto.
+          -- split; [|reflexivity]. apply tl_inv_touch with t; auto.
+      + destruct (tt_do_erase_rep2 uni t l s used free k n R2 I A) as (l' & D & R').
+        rewrite D. cbn [bind fst snd]. exists l'. split; [reflexivity|].
+        split; [eapply rep2_intro; eauto|]. split; [apply tl_inv_erase_key with t; exact I|reflexivity].
+    - rewrite (core_lookup_none _ _ _ _ _ _ _ _ _ _ C A). exists l. cbn [fst snd]. auto.
+  Qed.
+
+  (* clean_expired_values *)
+  Lemma tt_clean_loop_refines t now : forall fuel (l : ttll K V) (s : tl K V) used free n0 l1 o1 n1,
+    rep2 uni l s used free -> tl_inv uni t s -> List.length used < fuel ->
+    tl_clean_loop now (tl_ord s) (tl_lru s) n0 = (l1, o1, n1) ->
+    exists l' used' free', tt_clean_loop uni fuel l now n0 = Ok (l', n1) /\
+                           rep2 uni l' (tl_with s l1 o1) used' free' /\ tl_inv uni t (tl_with s l1 o1).
+  Proof.
+    induction fuel as [|f IH]; intros l s used free n0 l1 o1 n1 R I Hf E; [lia|].
+    pose proof R as (Hl & He & Hu & Hc & Ht & Hus & C).
+    pose proof C as (Hle & Hnd & Hlen & Hb & Hix & Hnk & Hmap & Hord & Hndo & Huo & Hz & HA & HB).
+    pose proof (core_len_ord _ _ _ _ _ _ _ _ _ C) as Lo.
+    cbn [tt_clean_loop].
+    destruct (Nat.ltb_spec 0 (tt_used l)) as [Hpos|Hzero].
+    - destruct (tt_ord l) as [|[z idx] o'] eqn:Eo.
+      { exfalso. destruct used as [|x u]; [simpl in Hus; lia|].
+        apply (proj1 (Huo x)). left; auto. }
+      destruct (ord_head uni l s used free z idx o' now R Eo) as (e & kh & ord' & Eord & Akh & Hdead).
+      rewrite Hdead. cbn [bind]. rewrite Eord in E. cbn [tl_clean_loop] in E.
+      destruct (e <=? now)%Z.
+      + destruct (tt_do_erase_rep2 uni t l s used free kh idx R I Akh) as (l2 & D & R').
+        rewrite D. cbn [bind].
+        assert (I' : tl_inv uni t (tl_erase_key s kh)) by (apply tl_inv_erase_key with t; exact I).
+        assert (Iu : In idx used). { apply Huo. left; auto. }
+        assert (Er : rem2 kh (tl_ord s) = ord').
+        { rewrite Eord. apply tl_rem2_head. pose proof I as (_ & _ & _ & _ & Nko & _).
+          rewrite Eord in Nko. simpl in Nko. inversion Nko; auto. }
+        destruct (IH l2 (tl_erase_key s kh) (remove_nat idx used) (idx :: free) (S n0) l1 o1 n1 R' I')
+          as (l' & u' & f' & D' & R'' & I'').
+        * pose proof (perm_remove_nat idx used Iu) as P1. apply Permutation_length in P1. simpl in P1. lia.
+        * unfold tl_erase_key. cbn [tl_with tl_lru tl_ord]. rewrite Er. exact E.
+        * exists l', u', f'. split; [exact D'|]. split; [exact R''|exact I''].
+      + inversion E; subst l1 o1 n1. rewrite <- Eord, tl_with_id.
+        exists l, used, free. split; [reflexivity|]. split; [exact R|exact I].
+    - assert (Eu : used = []) by (destruct used; [reflexivity|simpl in Hus; lia]).
+      assert (Eo : tt_ord l = []).
+      { destruct (tt_ord l) as [|[z x] o']; auto. exfalso. subst used.
+        apply (proj2 (Huo x)). simpl. auto. }
+      rewrite Eo in Lo. destruct (tl_ord s) as [|y r] eqn:Eord; [|simpl in Lo; lia].
+      cbn [tl_clean_loop] in E. inversion E; subst l1 o1 n1. rewrite <- Eord, tl_with_id.
+      exists l, used, free. split; [reflexivity|]. split; [exact R|exact I].
+  Qed.
+
+  Lemma tt_clean_refines t (l : ttll K V) (s : tl K V) now :
+    tl_inv uni t s -> tt_rep uni l s ->
+    exists l', tt_clean uni l now = Ok (l', snd (tl_clean s now)) /\
+               tt_rep uni l' (fst (tl_clean s now)) /\ tl_inv uni t (fst (tl_clean s now)) /\
+               tl_cap (fst (tl_clean s now)) = tl_cap s.
+  Proof.
+    intros I R. destruct (rep2_elim _ _ _ R) as (used & free & R2).
+    unfold tt_clean, tl_clean.
+    destruct (tl_clean_loop now (tl_ord s) (tl_lru s) 0) as [[l1 o1] n1] eqn:E.
+    destruct (tt_clean_loop_refines t now (S (tt_used l)) l s used free 0 l1 o1 n1 R2 I) as (l' & u' & f' & D & R' & I').
+    - destruct R2 as (_ & _ & _ & _ & _ & Hus & _). lia.
+    - exact E.
+    - rewrite D. cbn [fst snd]. exists l'. split; [reflexivity|]. split; [eapply rep2_intro; eauto|].
+      split; [exact I'|reflexivity].
+  Qed.
+End CallFacts.
+
+(* ------------------------------------------------------------------------------------ *)
+(* range calls                                                                           *)
+(* ------------------------------------------------------------------------------------ *)
+Section RangeFacts.
+  Context {K V : Type} `{EqDec K}.
+  Variable uni : bool.
+  Local Open Scope list_scope.
+  Local Open Scope nat_scope.
+
+  Lemma rep_ttl (l : ttll K V) (s : tl K V) (ttl : Z) : tt_rep uni l s ->
+    (if uni then tt_ttl l else ttl) = (if tl_uniform s then tl_ttl s else ttl).
+  Proof.
+    intros (used & free & _ & _ & Hu & _ & Ht & _). rewrite Hu.
+    destruct uni; [apply Ht; reflexivity|reflexivity].
+  Qed.
+
+  Lemma tt_ins_range_refines xs : forall t (l : ttll K V) (s : tl K V) a now n,
+    tl_inv uni t s -> tt_rep uni l s ->
+    exists l', tt_ins_range uni l xs a now n = Ok (l', snd (tl_ins_range s xs a now n)) /\
+               tt_rep uni l' (fst (tl_ins_range s xs a now n)) /\
+               tl_inv uni t (fst (tl_ins_range s xs a now n)) /\
+               tl_cap (fst (tl_ins_range s xs a now n)) = tl_cap s.
+  Proof.
+    induction xs as [|[[z k] v] r IH]; intros t l s a now n I R; cbn [tt_ins_range tl_ins_range].
+    - exists l. cbn [fst snd]. auto.
+    - cbv zeta. rewrite (rep_ttl l s z R).
+      destruct (tt_ins_refines uni t l s k v a now (now + ms (if tl_uniform s then tl_ttl s else z))%Z I R)
+        as (l1 & D1 & R1 & I1 & C1).
+      rewrite D1. cbn [bind].
+      destruct (tl_ins s k v a now (now + ms (if tl_uniform s then tl_ttl s else z))%Z) as [s1 b].
+      cbn [fst snd] in *.
+      destruct (IH t l1 s1 a now (if b then S n else n) I1 R1) as (l' & D2 & R2 & I2 & C2).
+      exists l'. split; [exact D2|]. split; [exact R2|]. split; [exact I2|]. congruence.
+  Qed.
+
+  Lemma tt_erase_range_refines ks : forall t (l : ttll K V) (s : tl K V) n,
+    tl_inv uni t s -> tt_rep uni l s ->
+    exists l', tt_erase_range l ks n = Ok (l', snd (tl_erase_range s ks n)) /\
+               tt_rep uni l' (fst (tl_erase_range s ks n)) /\
+               tl_inv uni t (fst (tl_erase_range s ks n)) /\
+               tl_cap (fst (tl_erase_range s ks n)) = tl_cap s.
+  Proof.
+    induction ks as [|k r IH]; intros t l s n I R; cbn [tt_erase_range tl_erase_range].
+    - exists l. cbn [fst snd]. auto.
+    - destruct (tt_erase_refines uni t l s k I R) as (l1 & D1 & R1 & I1 & C1).
+      rewrite D1. cbn [bind].
+      destruct (tl_erase s k) as [s1 b]. cbn [fst snd] in *.
+      destruct (IH t l1 s1 (if b then S n else n) I1 R1) as (l' & D2 & R2 & I2 & C2).
+      exists l'. split; [exact D2|]. split; [exact R2|]. split; [exact I2|]. congruence.
+  Qed.
+
+  Lemma tt_find_range_refines pk now ks : forall t (l : ttll K V) (s : tl K V),
+    tl_inv uni t s -> tt_rep uni l s ->
+    exists l', tt_find_range l ks pk now = Ok (l', snd (tl_find_range s ks pk now)) /\
+               tt_rep uni l' (fst (tl_find_range s ks pk now)) /\
+               tl_inv uni t (fst (tl_find_range s ks pk now)) /\
+               tl_cap (fst (tl_find_range s ks pk now)) = tl_cap s.
+  Proof.
+    induction ks as [|k r IH]; intros t l s I R; cbn [tt_find_range tl_find_range].
+    - exists l. cbn [fst snd]. auto.
+    - destruct (tt_find_refines uni t l s k pk now I R) as (l1 & D1 & R1 & I1 & C1).
+      rewrite D1. cbn [bind].
+      destruct (tl_find s k pk now) as [s1 o]. cbn [fst snd] in *.
+      destruct (IH t l1 s1 I1 R1) as (l' & D2 & R2 & I2 & C2).
+      rewrite D2. cbn [bind].
+      destruct (tl_find_range s1 r pk now) as [s2 os]. cbn [fst snd] in *.
+      exists l'. split; [reflexivity|]. split; [exact R2|]. split; [exact I2|]. congruence.
+  Qed.
+End RangeFacts.
+
+Section TtlLitFacts.
+  Context {K V : Type} `{EqDec K}.
+  Variable uni : bool.
+  Local Open Scope list_scope.
+  Local Open Scope nat_scope.
+
+  Theorem tt_rep_init : forall cap ttl,
+      1 <= cap -> tt_rep (K := K) (V := V) uni (ttll_init cap ttl) (tl_init uni cap ttl).
+  Proof.
+    intros cap ttl Hc. apply (rep2_intro uni _ _ [] (seq 0 cap)).
+    unfold rep2, core, ttll_init, tl_init.
+    cbn [tt_cap tt_ttl tt_elems tt_index tt_list tt_end tt_ord tt_used tl_uniform tl_cap tl_ttl tl_lru tl_ord app
+         rev map List.length].
+    split; [reflexivity|]. split; [reflexivity|]. split; [reflexivity|]. split; [reflexivity|].
+    split; [reflexivity|]. split; [reflexivity|].
+    split; [apply repeat_length|]. split; [apply seq_NoDup|]. split; [apply seq_length|].
+    split. { intros n I. apply in_seq in I. lia. }
+    split; [reflexivity|]. split; [constructor|]. split; [reflexivity|]. split; [reflexivity|].
+    split; [constructor|]. split; [tauto|].
+    split. { intros _ z n []. }
+    split. { intros n []. }
+    intros k n E. discriminate.
+  Qed.
+
+  Lemma tt_step_refines_cap : forall t (l : ttll K V) (s : tl K V) o now rnd,
+      tl_inv uni t s -> tt_rep uni l s ->
+      exists l', tt_step uni l o now rnd = Ok (l', snd (tl_step s o now rnd)) /\
+                 tt_rep uni l' (fst (tl_step s o now rnd)) /\ tl_inv uni now (fst (tl_step s o now rnd)) /\
+                 tl_cap (fst (tl_step s o now rnd)) = tl_cap s.
+  Proof.
+    intros t l s o now rnd I R.
+    destruct (rep2_elim _ _ _ R) as (used & free & R2).
+    pose proof R2 as (Hl & He & Hu & Hc & Ht & Hus & C).
+    pose proof C as (Hle & Hnd & Hlen & Hb & Hix & Hnk & Hmap & Hord & Hndo & Huo & Hz & HA & HB).
+    pose proof (core_len _ _ _ _ _ _ _ _ _ C) as Ln.
+    pose proof (core_len_ord _ _ _ _ _ _ _ _ _ C) as Lo.
+    destruct o as [ttl k v a|xs a|k|ks|k pk|ks pk|ks pk|k pk| |d| | | | | ]; cbn [tt_step tl_step];
+      try (exists l; cbn [fst snd]; split; [reflexivity|split; [exact R|split; [exact I|reflexivity]]]).
+    - (* Insert *)
+      cbv zeta. rewrite (rep_ttl uni l s ttl R).
+      destruct (tt_ins_refines uni t l s k v a now (now + ms (if tl_uniform s then tl_ttl s else ttl))%Z I R)
+        as (l1 & D1 & R1 & I1 & C1).
+      rewrite D1. cbn [bind].
+      destruct (tl_ins s k v a now (now + ms (if tl_uniform s then tl_ttl s else ttl))%Z) as [s1 b].
+      cbn [fst snd] in *. exists l1. split; [reflexivity|]. split; [exact R1|]. split; [exact I1|exact C1].
+    - (* InsertRange *)
+      destruct (tt_ins_range_refines uni xs t l s a now 0 I R) as (l1 & D1 & R1 & I1 & C1).
+      rewrite D1. cbn [bind].
+      destruct (tl_ins_range s xs a now 0) as [s1 n]. cbn [fst snd] in *. exists l1.
+      split; [reflexivity|]. split; [exact R1|]. split; [exact I1|exact C1].
+    - (* Erase *)
+      destruct (tt_erase_refines uni t l s k I R) as (l1 & D1 & R1 & I1 & C1).
+      rewrite D1. cbn [bind].
+      destruct (tl_erase s k) as [s1 b]. cbn [fst snd] in *. exists l1.
+      split; [reflexivity|]. split; [exact R1|]. split; [exact I1|exact C1].
+    - (* EraseRange *)
+      destruct (tt_erase_range_refines uni ks t l s 0 I R) as (l1 & D1 & R1 & I1 & C1).
+      rewrite D1. cbn [bind].
+      destruct (tl_erase_range s ks 0) as [s1 n]. cbn [fst snd] in *. exists l1.
+      split; [reflexivity|]. split; [exact R1|]. split; [exact I1|exact C1].
+    - (* Find *)
+      destruct (tt_find_refines uni t l s k pk now I R) as (l1 & D1 & R1 & I1 & C1).
+      rewrite D1. cbn [bind].
+      destruct (tl_find s k pk now) as [s1 r]. cbn [fst snd] in *. exists l1.
+      split; [reflexivity|]. split; [exact R1|]. split; [exact I1|exact C1].
+    - (* FindRange *)
+      destruct (tt_find_range_refines uni pk now ks t l s I R) as (l1 & D1 & R1 & I1 & C1).
+      rewrite D1. cbn [bind].
+      destruct (tl_find_range s ks pk now) as [s1 r]. cbn [fst snd] in *. exists l1.
+      split; [reflexivity|]. split; [exact R1|]. split; [exact I1|exact C1].
+    - (* FindRangeFill *)
+      destruct (tt_find_range_refines uni pk now ks t l s I R) as (l1 & D1 & R1 & I1 & C1).
+      rewrite D1. cbn [bind].
+      destruct (tl_find_range s ks pk now) as [s1 r]. cbn [fst snd] in *. exists l1.
+      split; [reflexivity|]. split; [exact R1|]. split; [exact I1|exact C1].
+    - (* UpdateTtl *)
+      rewrite Hu. destruct uni eqn:Eu.
+      + eexists. cbn [fst snd]. split; [reflexivity|]. split; [|split; [|reflexivity]].
+        * apply (rep2_intro true _ _ used free). unfold rep2.
+          cbn [tt_cap tt_ttl tt_elems tt_index tt_list tt_end tt_ord tt_used tl_uniform tl_cap tl_ttl tl_lru tl_ord].
+          split; [exact Hl|]. split; [exact He|]. split; [reflexivity|]. split; [exact Hc|].
+          split; [reflexivity|]. split; [exact Hus|exact C].
+        * destruct I as (H0 & H1 & H2 & H3 & H4 & H5 & H6). unfold tl_inv.
+          cbn [tl_uniform tl_cap tl_ttl tl_lru tl_ord]. repeat split; auto; apply H5.
+      + exists l. cbn [fst snd]. split; [reflexivity|]. split; [exact R|]. split; [exact I|reflexivity].
+    - (* Clear *)
+      rewrite Hu. destruct uni eqn:Eu.
+      + assert (I' : tl_inv (K := K) (V := V) true now (tl_init true (tl_cap s) (tl_ttl s))).
+        { apply tl_inv_init. destruct I as (_ & H1 & _). exact H1. }
+        destruct (Nat.ltb_spec 0 (tt_used l)) as [Hpos|Hzero].
+        * eexists. cbn [fst snd]. split; [reflexivity|]. split; [|split; [exact I'|reflexivity]].
+          apply (rep2_intro true _ _ [] (seq 0 (tl_cap s))). unfold rep2, core, tl_init.
+          rewrite Hl, Hlen.
+          cbn [tt_cap tt_ttl tt_elems tt_index tt_list tt_end tt_ord tt_used tl_uniform tl_cap tl_ttl tl_lru tl_ord app
+               rev map List.length].
+          split; [reflexivity|]. split; [reflexivity|]. split; [reflexivity|]. split; [exact Hc|].
+          split; [intros _; apply Ht; reflexivity|]. split; [reflexivity|].
+          split; [exact Hle|]. split; [apply seq_NoDup|]. split; [apply seq_length|].
+          split. { intros n J. apply in_seq in J. lia. }
+          split; [reflexivity|]. split; [constructor|]. split; [reflexivity|]. split; [reflexivity|].
+          split; [constructor|]. split; [tauto|].
+          split. { intros _ z n []. }
+          split. { intros n []. }
+          intros k n E. discriminate.
+        * exists l. cbn [fst snd]. split; [reflexivity|]. split; [|split; [exact I'|reflexivity]].
+          assert (Eu0 : used = []) by (destruct used; [reflexivity|simpl in Hus; lia]).
+          assert (Eo : tt_ord l = []).
+          { destruct (tt_ord l) as [|[z x] o']; auto. exfalso. subst used.
+            apply (proj2 (Huo x)). simpl. auto. }
+          assert (El : tl_lru s = []).
+          { subst used. simpl in Ln. destruct (tl_lru s); [reflexivity|simpl in Ln; lia]. }
+          assert (Eor : tl_ord s = []).
+          { rewrite Eo in Lo. simpl in Lo. destruct (tl_ord s); [reflexivity|simpl in Lo; lia]. }
+          apply (rep2_intro true _ _ used free). unfold rep2, tl_init.
+          cbn [tl_uniform tl_cap tl_ttl tl_lru tl_ord].
+          rewrite El, Eor in C.
+          split; [exact Hl|]. split; [exact He|]. split; [reflexivity|]. split; [exact Hc|].
+          split; [exact Ht|]. split; [exact Hus|exact C].
+      + exists l. cbn [fst snd]. split; [reflexivity|]. split; [exact R|]. split; [exact I|reflexivity].
+    - (* Clean *)
+      destruct (tt_clean_refines uni t l s now I R) as (l1 & D1 & R1 & I1 & C1).
+      rewrite D1. cbn [bind].
+      destruct (tl_clean s now) as [s1 n]. cbn [fst snd] in *. exists l1.
+      split; [reflexivity|]. split; [exact R1|]. split; [exact I1|exact C1].
+    - (* Size *)
+      exists l. cbn [fst snd]. unfold tl_size. rewrite Hus, Ln.
+      split; [reflexivity|]. split; [exact R|]. split; [exact I|reflexivity].
+    - (* Empty *)
+      exists l. cbn [fst snd]. unfold tl_size. rewrite Hus, Ln.
+      split; [reflexivity|]. split; [exact R|]. split; [exact I|reflexivity].
+    - (* Capacity *)
+      exists l. cbn [fst snd]. rewrite Hle.
+      split; [reflexivity|]. split; [exact R|]. split; [exact I|reflexivity].
+  Qed.
+
+  Theorem tt_step_refines : forall t (l : ttll K V) (s : tl K V) o now rnd,
+      tl_inv uni t s -> (t <= now)%Z -> tt_rep uni l s ->
+      exists l', tt_step uni l o now rnd = Ok (l', snd (tl_step s o now rnd)) /\
+                 tt_rep uni l' (fst (tl_step s o now rnd)) /\ tl_inv uni now (fst (tl_step s o now rnd)).
+  Proof.
+    intros t l s o now rnd I _ R.
+    destruct (tt_step_refines_cap t l s o now rnd I R) as (l' & D & R' & I' & _).
+    exists l'. auto.
+  Qed.
+
+  Fixpoint tt_run (l : ttll K V) (h : list (ev K V)) : res (ttll K V * list (ret K V)) :=
+    match h with
+    | [] => Ok (l, [])
+    | e :: r => do x <- tt_step uni l (e_op e) (e_now e) (e_rnd e);
+                let '(l1, y) := x in
+                do z <- tt_run l1 r; let '(l2, ys) := z in Ok (l2, y :: ys)
+    end.
+
+  Lemma tt_run_refines : forall h t (l : ttll K V) (s : tl K V),
+      tl_inv uni t s -> tt_rep uni l s ->
+      exists l', tt_run l h = Ok (l', snd (run tl_step s h)) /\
+                 tt_rep uni l' (fst (run tl_step s h)) /\
+                 tl_cap (fst (run tl_step s h)) = tl_cap s.
+  Proof.
+    induction h as [|e r IH]; intros t l s I R; simpl.
+    - exists l. auto.
+    - destruct (tt_step_refines_cap t l s (e_op e) (e_now e) (e_rnd e) I R)
+        as (l1 & D1 & R1 & I1 & C1).
+      rewrite D1. cbn [bind]. unfold step_ev.
+      destruct (tl_step s (e_op e) (e_now e) (e_rnd e)) as [s1 y1]. simpl in *.
+      destruct (IH (e_now e) l1 s1 I1 R1) as (l2 & D2 & R2 & C2).
+      rewrite D2. cbn [bind].
+      destruct (run tl_step s1 r) as [s2 ys]. simpl in *.
+      exists l2. split; [reflexivity|]. split; [exact R2|]. congruence.
+  Qed.
+
+  (* whole histories from a fresh cache: never UB, same results as the mid-level model *)
+  Theorem tt_no_UB_on_any_history : forall cap ttl h,
+      1 <= cap -> mono_from 0 h ->
+      exists l', tt_run (ttll_init cap ttl) h = Ok (l', snd (run tl_step (tl_init uni cap ttl) h)) /\
+                 tt_rep uni l' (fst (run tl_step (tl_init uni cap ttl) h)).
+  Proof.
+    intros cap ttl h Hc _.
+    destruct (tt_run_refines h 0%Z (ttll_init cap ttl) (tl_init uni cap ttl)
+                (tl_inv_init uni cap ttl 0%Z Hc) (tt_rep_init cap ttl Hc)) as (l' & D & R & _).
+    exists l'. auto.
+  Qed.
+
+  (* the number of value cells never changes *)
+  Theorem tt_value_cells_constant : forall cap ttl h l' rs,
+      1 <= cap -> mono_from 0 h ->
+      tt_run (ttll_init cap ttl) h = Ok (l', rs) -> List.length (tt_elems l') = cap.
+  Proof.
+    intros cap ttl h l' rs Hc _ E.
+    destruct (tt_run_refines h 0%Z (ttll_init cap ttl) (tl_init uni cap ttl)
+                (tl_inv_init uni cap ttl 0%Z Hc) (tt_rep_init cap ttl Hc)) as (l2 & D & R & C).
+    rewrite D in E. injection E as E1 E2. subst l2.
+    destruct R as (used & free & _ & _ & _ & _ & _ & Rle & _). rewrite Rle, C. reflexivity.
+  Qed.
+End TtlLitFacts.
